@@ -1634,6 +1634,18 @@ class TextQueryBackend(Backend):
                 idx_inner = self.precedence.index(inner_class)
             except ValueError:
                 idx_inner = -1
+        elif (
+            isinstance(inner, ConditionFieldEqualsValueExpression)
+            and isinstance(inner.value, SigmaExists)
+            and not inner.value
+            and not self.explicit_not_exists_expression
+        ):
+            # Special case: a not exists check is converted into a NOT condition if there's no
+            # explicit expression for it.
+            try:
+                idx_inner = self.precedence.index(ConditionNOT)
+            except ValueError:
+                idx_inner = -1
         else:
             inner_class = precedence_map.get(inner.__class__, inner.__class__)
             try:
